@@ -349,6 +349,16 @@ def call_builtin(ex, name, node, st):
         raise OutOfSubset("float(%r)" % (v.kind,))
     if name == "bool":
         return vbool(truth(args[0]))
+    if name == "type" and len(args) == 1:
+        k = args[0].kind
+        nm = ("function" if isinstance(k, KFunc) else "list" if isinstance(k, KList) else "str" if isinstance(k, KStr) else
+              "bool" if isinstance(k, KBool) else "int" if isinstance(k, KInt) else "float" if isinstance(k, (KFloat, KReal)) else
+              "tuple" if isinstance(k, KTuple) else "dict" if isinstance(k, KDict) else None)
+        if nm is None:
+            raise OutOfSubset("type(%r)" % (k,))
+        return Val(FUNC, [], py=("typeof", nm))
+    if name == "str" and isinstance(args[0].kind, KFunc) and args[0].py and args[0].py[0] == "typeof":
+        return strings.lit("<class '%s'>" % args[0].py[1])
     if name == "str":
         if is_intlike(args[0]):
             return strings.str_of_int(vint(to_int(args[0])))
